@@ -13,8 +13,73 @@ use crate::gen::*;
 use crate::objs::{envelope, supports, to_hex};
 use crate::seqgen::EXTREME;
 
+/// Validation of the translator: the functions rs2lean.py translated from today's source, run by
+/// `srcmodel`, against the implementation they were translated from, on the boundary grid, random pairs
+/// and `usize` extremes (the Lean theorems relate the translation to the model for ALL pairs).
+pub fn src_tie(ctx: &mut Ctx) {
+    let src_model = std::path::Path::new(&ctx.model_path).with_file_name("srcmodel");
+    if !src_model.exists() {
+        ctx.unavailable.push("srcmodel not built: the translated source was not run against the implementation".into());
+        return;
+    }
+    let mut vals: Vec<usize> = vec![0, 1, 2, 3];
+    for e in 1..=16 {
+        let p = 1usize << e;
+        for d in 0..2 { vals.push(p - d); vals.push(p + d); vals.push((65536 - p).saturating_sub(d)); vals.push(65536 - p + d); }
+    }
+    for _ in 0..40 { vals.push(ctx.rng.below(65538)); }
+    vals.extend(EXTREME.iter().cloned());
+    vals.sort_unstable(); vals.dedup();
+    let mut lines = vec![];
+    for kind in ["high", "low", "default"] {
+        for &k in &vals {
+            for &r in &vals {
+                lines.push(format!("S supports {} {} {}", kind, k, r));
+            }
+        }
+        for _ in 0..3000 {
+            let (k, r) = (*ctx.rng.pick(&vals), *ctx.rng.pick(&vals));
+            let sb = *ctx.rng.pick(&[0usize, 1, 2, 3, 64, 65, 1 << 20, usize::MAX - 1, usize::MAX]);
+            lines.push(format!("S validate {} {} {} {}", kind, k, r, sb));
+        }
+    }
+    let answers = {
+        // spread over processes
+        let np = 14usize;
+        let chunks: Vec<Vec<String>> = lines.chunks((lines.len() + np - 1) / np).map(|c| c.to_vec()).collect();
+        let path = src_model.to_string_lossy().to_string();
+        let handles: Vec<_> = chunks.into_iter().map(|q| { let p = path.clone(); std::thread::spawn(move || crate::ctx::model_eval_at(&p, &q)) }).collect();
+        let mut all = vec![];
+        for h in handles {
+            match h.join().unwrap() {
+                Ok(a) => all.extend(a),
+                Err(e) => {
+                    ctx.model_fail(format!("srcmodel could not be run: {}", e), &Case::new("src-tie"), None);
+                    return;
+                }
+            }
+        }
+        all
+    };
+    let mut sess = crate::objs::Session::new();
+    let mut bad = 0;
+    for (l, a) in lines.iter().zip(answers.iter()) {
+        let got = sess.exec(l).0.line();
+        if &got != a {
+            bad += 1;
+            if bad <= 5 {
+                let c = Case { name: "src-tie".into(), lines: vec![l.clone()], with_model: false };
+                ctx.model_fail(format!("translated source answers `{}` but the implementation answers `{}` to `{}` (translator or source semantics mismatch)", a, got, l), &c, None);
+            }
+        }
+    }
+    ctx.bump("translated_source_vs_implementation_lines", lines.len());
+    ctx.model_lines += lines.len();
+}
+
 pub fn run(ctx: &mut Ctx) {
     let thorough = ctx.thorough();
+    src_tie(ctx);
     let dummy = Case::new("cap");
     // staircase from the model
     let out = std::process::Command::new(&ctx.model_path).arg("cap").output();
